@@ -26,7 +26,8 @@ RULE = (
     "x*c, x%c, keccak of words / of dynamic content, array length and elements, storage written by setUp, optional vm.assume; "
     "every second contract also has a counted loop with a symbolic trip count (while-shaped, and do-while-shaped whose back edge is "
     "the taken JUMPI side) failing only after exactly k iterations, run with a per-function --loop below / above k; "
-    "guards on a memory word stored in the tail of a call's output window when the callee (identity precompile / helper contract) "
+    "`new C(arg)` with a constructor that panics for some argument derived from the test's parameter, the caller bubbling the "
+    "revert data up or swallowing it (CREATE / CREATE2); guards on a memory word stored in the tail of a call's output window when the callee (identity precompile / helper contract) "
     "returns fewer bytes than the window; failures behind a JUMP to a JUMPDEST that follows a PUSH32 constant with embedded PUSH-opcode bytes (EIP-1967 slot, random); "
     "value-bearing CALLs (symbolic value) to reverting / accepting / conditionally reverting callees deployed by setUp, the failure "
     "swallowed, with assertions on balance(this) / balance(callee) that hold only with or only without the refund; "
@@ -84,6 +85,8 @@ def _flagged(run, funsig) -> list:
     for lv, msg in run.log:
         if lv not in ("WARNING", "ERROR", "CRITICAL"):
             continue
+        if msg.startswith("unknown deployed bytecode"):
+            continue   # informational (a CREATEd contract that is not in the build output): says nothing about completeness
         if funsig in msg or "check_" not in msg:
             out.append(msg)
     return out
@@ -245,7 +248,7 @@ def make_jobs(ctx, specs, combos, sweep=40):
                 gen = e2e.gen_contract(random.Random(seed), name=name, pool=kw.get("pool", ()), ntests=kw.get("ntests", 3),
                                    bytes_sizes=kw.get("bytes_sizes"), array_sizes=kw.get("array_sizes"),
                                    panic_codes=kw.get("gen_panic_codes", (1,)), touch=kw.get("touch", False),
-                                   loops=kw.get("loops", False), siblings=kw.get("siblings"), subst=kw.get("subst"), jumps=kw.get("jumps"), tails=kw.get("tails"))
+                                   loops=kw.get("loops", False), siblings=kw.get("siblings"), subst=kw.get("subst"), jumps=kw.get("jumps"), tails=kw.get("tails"), creates=kw.get("creates"))
             cfg = {}
             if kw.get("panic_error_codes") is not None:
                 cfg["panic_error_codes"] = kw["panic_error_codes"]
@@ -432,6 +435,11 @@ def correspond(ctx):
     specs.append((41, "Jump0", {"pool": pool, "ntests": 0, "jumps": {"K": e2e.EIP1967_IMPL_SLOT, "use_k": "sload"}}))
     specs.append((42, "Jump1", {"pool": pool, "ntests": 0, "jumps": {"use_k": "pop"}}))
     specs.append((43, "Jump2", {"pool": pool, "ntests": 0, "jumps": {"use_k": "none"}}))
+    # directed: `new C(arg)` whose constructor panics for some arg; the caller bubbles the revert data up / swallows it
+    specs.append((61, "Create0", {"pool": pool, "ntests": 0, "creates": [{"bubble": True, "derive": "x", "create2": False},
+                                                                         {"bubble": False, "derive": "x", "create2": False}]}))
+    specs.append((62, "Create1", {"pool": pool, "ntests": 0, "creates": [{"bubble": True, "derive": "x&0xff", "create2": True},
+                                                                         {"bubble": True, "derive": "x+1", "create2": False}]}))
     # directed: a guard on the memory word in the untouched tail of a call's output window
     specs.append((51, "Tail0", {"pool": pool, "ntests": 0, "tails": {"callee": "identity", "op": "STATICCALL"}}))
     specs.append((52, "Tail1", {"pool": pool, "ntests": 0, "tails": {"callee": "helper", "op": "CALL"}}))
@@ -451,7 +459,7 @@ def correspond(ctx):
             if j % 2 == 0:
                 kw["solver_threads"] = 1
         specs.append((ctx.rng.randrange(1 << 48), f"Sib{j + 2}", kw))
-    n = ctx.scale(32, 300)
+    n = ctx.scale(20, 300)
     for i in range(n):
         kw = {"pool": pool}
         if i % 5 == 2:
@@ -472,6 +480,8 @@ def correspond(ctx):
             kw["jumps"] = True
         if i % 4 == 0:
             kw["tails"] = True
+        if i % 4 == 1:
+            kw["creates"] = True
         if i % 8 == 6:
             kw = {"pool": pool, "value": True}
         if i % 6 == 5:
